@@ -111,6 +111,12 @@ def h_fixed(ctx):
     ctx.check_eq('value', v, want)
     ctx.check_eq('consumed', st.tell(), size)
     ctx.check_eq('sizeof', con.sizeof(), size)
+    # the other public entry point: decoding straight from a buffer (Construct.parse) - same value, whatever follows the field
+    try:
+        v2 = con.parse(ctx.mkbytes(bs))
+    except Exception as ex:
+        v2 = type(ex).__name__
+    ctx.check_eq('parse(buffer)/value', v2, want)
 
 
 # gABI data representation (Figure 4-2 / 4-3): name -> (bytes in ELF32, bytes in ELF64, signed)
